@@ -210,6 +210,25 @@ func runCase(ctx context.Context, rep *mon.Reporter, rng *mon.Rand, c *Case, idx
 	}
 	snap := c.snap()
 
+	if c.Overlap {
+		// the set without the overlapping declaration must compile: otherwise a rejection says nothing about overlaps
+		sk := c.skeleton()
+		if sk == nil {
+			rep.Count("overlap_sets_without_a_non_overlapping_part", 1)
+		} else {
+			var b *built
+			p := mon.Safe(func() { b = sk.build(ctx, sk.plainOrder()) })
+			rep.AddEvaluations(1)
+			if p != nil || b.cerr != nil {
+				rep.Count("overlap_sets_skipped_because_the_non_overlapping_part_is_refused", 1)
+				if b != nil && b.cerr != nil {
+					rep.Distinct("nonoverlap_reject_reasons", short(b.cerr.Error(), 40))
+				}
+				return
+			}
+		}
+	}
+
 	// ---- compile in every order, 3x each
 	var accepted []*built
 	var acceptedOrd []order
@@ -248,6 +267,12 @@ func runCase(ctx context.Context, rep *mon.Reporter, rng *mon.Rand, c *Case, idx
 	rep.Count("orders_compiled", int64(len(orders)))
 	rep.Distinct("orders", c.digest()+fmt.Sprint(len(orders)))
 
+	indirect, viaAddEnd := false, false
+	for _, p := range c.Preds {
+		rep.Count("declared_by/"+modeNames[p.Mode], 1)
+		indirect = indirect || p.indirect()
+		viaAddEnd = viaAddEnd || p.Mode == mAddEnd
+	}
 	if c.Overlap {
 		rep.Count("overlap_sets", 1)
 		if len(orders) >= 2 {
@@ -255,6 +280,18 @@ func runCase(ctx context.Context, rep *mon.Reporter, rng *mon.Rand, c *Case, idx
 		}
 		if len(accepted) == 0 {
 			rep.Count("overlap_sets_rejected_in_every_order", 1)
+			if indirect {
+				rep.Count("overlap_sets_with_no_direct_dependency_rejected_in_every_order", 1)
+			}
+			if len(c.Preds) > 1 {
+				kinds := map[int]bool{}
+				for _, p := range c.Preds {
+					kinds[p.Mode] = true
+				}
+				if len(kinds) > 1 {
+					rep.Count("overlap_sets_mixing_declaration_kinds_rejected_in_every_order", 1)
+				}
+			}
 			return
 		}
 		rep.Count("overlap_sets_accepted_in_some_order", 1)
@@ -287,6 +324,22 @@ func runCase(ctx context.Context, rep *mon.Reporter, rng *mon.Rand, c *Case, idx
 		rep.Count("nonoverlap_sets_accepted_in_some_orders_only", 1)
 	}
 	rep.Count("nonoverlap_sets_accepted_and_run", 1)
+	if indirect {
+		rep.Count("nonoverlap_sets_with_no_direct_dependency_run", 1)
+	}
+	if viaAddEnd {
+		rep.Count("nonoverlap_sets_with_AddEnd_run", 1)
+	}
+	for _, m := range c.Maps {
+		if !m.src.Dyn {
+			continue
+		}
+		rep.Count("dynamic_source_paths_run", 1)
+		rep.Count(fmt.Sprintf("dynamic_source_paths_run/%d_steps_below_the_first_interface", len(m.From)-m.src.IfaceAt), 1)
+		if len(m.src.Ifaces) > 1 {
+			rep.Count("dynamic_source_paths_run/through_two_interfaces", 1)
+		}
+	}
 	if c.Hazard != "" {
 		rep.Count("hostile/"+c.Hazard, 1)
 	}
@@ -430,9 +483,18 @@ func (c *Case) attribute(mode string, e *expectation, o *outcome) string {
 	}
 	if refClass != "" && c.Struct != fSrcNestedPtr && (strings.Contains(site, "takeOne") || strings.Contains(site, "checkAndExtractFrom") || strings.Contains(site, "fieldMap")) {
 		// a panic while walking the source value belongs to what the reference found on the source side;
-		// several findings in one run: name the one that leaves the walker without a value to inspect
-		for _, k := range []string{"interface-source-holds-nil", "interface-source-holds-nil-pointer", "nil-pointer-on-source-path",
-			"interface-source-holds-struct-without-the-field", "interface-source-holds-map-with-non-string-key", "interface-source-holds-non-container"} {
+		// several findings in one run: a panic raised by fieldMap itself (a walk error it does not turn into
+		// an error value) belongs to a step that does not exist; a panic raised inside the walk (reflect)
+		// to the finding that leaves the walker without a value to inspect
+		noValue := []string{"interface-source-holds-nil", "interface-source-holds-nil-pointer", "nil-pointer-on-source-path",
+			"nil-interface-deeper-below-interface-source", "nil-pointer-deeper-below-interface-source"}
+		noStep := []string{"interface-source-holds-struct-without-the-field", "interface-source-holds-map-with-non-string-key", "interface-source-holds-non-container",
+			"field-missing-deeper-below-interface-source", "non-string-key-map-deeper-below-interface-source", "non-container-deeper-below-interface-source"}
+		prio := append(append([]string(nil), noValue...), noStep...)
+		if strings.Contains(site, "fieldMap") {
+			prio = append(append([]string(nil), noStep...), noValue...)
+		}
+		for _, k := range prio {
 			if e.All[k] {
 				return k
 			}
